@@ -16,7 +16,9 @@ ALNUM = set(b"ABCDEFGHIJKLMNOPQRSTUVWXYZabcdefghijklmnopqrstuvwxyz0123456789")
 UNRESERVED = ALNUM | set(b"-._~")
 SUBDELIMS = set(b"!$&'()*+,;=")
 SETS = {"unres": UNRESERVED, "ui": UNRESERVED | SUBDELIMS | set(b":"),
-        "path": UNRESERVED | SUBDELIMS | set(b":@/%")}
+        # Uri::absolutePath(): RFC 3986 pchar + '/' (PathChars, which includes '%') plus the query delimiter '?',
+        # because path_ holds path and query
+        "path": UNRESERVED | SUBDELIMS | set(b":@/%") | set(b"?")}
 FLAGS = [0, 2, 3, 4, 7, 259, 387]           # every flag combination passed to rfc1738_do_escape in the tree
 HEXD = b"0123456789abcdefABCDEF"
 
